@@ -147,58 +147,6 @@ def f09History : List Op :=
 /-- the state after the five ops: PUBLISH 1 delivered, PUBLISH 2 deferred -/
 def f09St : Server := run (init {}) f09History
 
--- EXPLORE BEGIN
-def kS0 : Connect := { ver := 5, clean := false, id := [115] }
-def kS3 : Connect := { ver := 4, clean := false, id := [115] }
-def kSw : Connect := { ver := 5, clean := false, id := [115], sei := some 100, will := some { topic := [116], payload := [119], qos := 2 } }
-def kQw : Connect := { ver := 5, clean := true, id := [113], will := some { topic := [116], payload := [119], qos := 2 } }
-
-def alphabet : List Op :=
-  [.connectHold 5 c09S 1, .connectHold 5 c09S 2, .connectHold 5 kS0 1, .connectHold 5 kS0 2, .connectHold 5 kS3 2,
-   .connectHold 5 kSw 1, .connectHold 5 kSw 2, .connectHold 5 kQw 1,
-   .connectHold 6 c09S 1, .connectHold 6 c09S 2, .connectHold 6 kS0 2,
-   .connect 6 c09S, .connect 6 kS0, .connect 7 c09S, .connect 7 kQw,
-   .drop 1, .drop 5, .drop 6, .drop 7, .dropHold 1, .dropHold 5, .dropHold 6, .dropHold 7,
-   .dropHoldEarly 1, .dropHoldEarly 5, .dropHoldEarly 6,
-   .release 1, .release 5, .release 6, .release 7,
-   .recv 5 (.pubrec 1 0), .recv 1 (.pubrec 1 0), .recv 5 .pingreq, .recv 5 (.disconnect 0 none), .recv 5 (.disconnect 4 none),
-   .recv 2 (.publish 1 false false 3 [116] [99] 0 none),
-   .recvCut 5 .pingreq, .recvCut 1 .pingreq,
-   .tick "inflight" 1000001, .tick "wills" 1000001]
-
-def bases : List (List Op) :=
-  [c09History.take 4,
-   [.connect 1 kS0, .recv 1 (.subscribe 1 0 [{ filter := [116], qos := 2 }]), .connect 2 { ver := 5, id := [112] },
-    .recv 2 (.publish 2 false false 1 [116] [97] 0 none)],
-   [.connect 1 kS3, .recv 1 (.subscribe 1 0 [{ filter := [116], qos := 2 }]), .connect 2 { ver := 5, id := [112] },
-    .recv 2 (.publish 2 false false 1 [116] [97] 0 none)],
-   [.connect 1 kSw, .recv 1 (.subscribe 1 0 [{ filter := [116], qos := 2 }]), .connect 2 { ver := 5, id := [112] },
-    .recv 2 (.publish 2 false false 1 [116] [97] 0 none)]]
-
-partial def search (depth : Nat) (s : Server) (hist : List Op) (ok : Bool) (acc : Array (List Op × Bool)) : Array (List Op × Bool) :=
-  if depth == 0 then acc else
-  alphabet.foldl (fun acc op =>
-    if !decide (OpFresh s op) then acc else
-    let s' := (step s op).1
-    let ok' := ok && decide (SchedOK s op)
-    let h := decide (Holds s [115] 1 [97])
-    let acc := if h && !decide (Ends s [115] 1 op) && !decide (Holds s' [115] 1 [97]) then acc.push (hist ++ [op], ok') else acc
-    if h then search (depth - 1) s' (hist ++ [op]) ok' acc else acc) acc
-
-#eval bases.map fun b => (search 3 (run (init {}) b) [] true #[]).toList.take 5
-partial def count (depth : Nat) (s : Server) : Nat × Nat × Nat :=
-  if depth == 0 then (0, 0, 0) else
-  alphabet.foldl (fun acc op =>
-    if !decide (OpFresh s op) then acc else
-    let s' := (step s op).1
-    let h := decide (Holds s [115] 1 [97])
-    let e := decide (Ends s [115] 1 op)
-    let h' := decide (Holds s' [115] 1 [97])
-    let acc := (acc.1 + 1, acc.2.1 + (if h && e then 1 else 0), acc.2.2 + (if h && !h' then 1 else 0))
-    if h then let r := count (depth - 1) s'; (acc.1 + r.1, acc.2.1 + r.2.1, acc.2.2 + r.2.2) else acc) (0, 0, 0)
-#eval bases.map fun b => count 3 (run (init {}) b)
-#eval bases.map fun b => (search 4 (run (init {}) b) [] true #[]).toList.take 5
--- EXPLORE END
 
 /-- **F09**: before the PUBACK the session has, under packet identifier 2, the PUBLISH with payload "b", deferred by
     Receive Maximum 1 (`expiry = -1`): `Holds` does not count it, `HoldsAny` (= `Holds` without the `0 ≤ expiry`
@@ -218,5 +166,83 @@ theorem C09_deferred_release_counterexample :
       match o with
       | .wrote 1 (.publish 5 m _) => m.id == 2 && m.payload == [98] && !m.dup
       | _ => false) = true := by decide
+
+/-! ### 3. schedule ops
+
+Explored (with `#eval`, a depth-first search over all op sequences of length ≤ 4 from an alphabet of 40 ops —
+`connectHold` stage 1 / 2 and `connect` for S's client id with and without a session expiry interval, MQTT 3, with a
+will; `drop`, `dropHold`, `dropHoldEarly`, `release`, `recv`, `recvCut` on S's connection and on the parked ones;
+ticks — from four base states in which S holds the record; about 2·10⁶ steps, `SchedOK` respected or not): NO step
+with `Holds s ∧ ¬ Ends s op ∧ ¬ Holds (step s op).1`.  `Ends` is wide enough to cover the schedules `SchedOK`
+forbids: `EndsDrop` / `EndsRecv` / `EndsParked` look at the client id of the object of the connection, registered or
+not.  Below: the depth-1 part of that search as a `decide` statement, and the one notable schedule. -/
+
+/-- a CONNECT for S's client id WITHOUT a session expiry interval: its session ends with its connection -/
+def c09S0 : Connect := { ver := 5, clean := false, id := [115] }
+
+/-- schedules applied to the state in which S (connection 1) holds the record -/
+def c09SchedPrefixes : List (List Op) :=
+  [[],
+   [.connectHold 5 c09S0 1],                    -- a second CONNECT for S's id, parked in the authentication hook
+   [.connectHold 5 c09S 1],
+   [.connectHold 5 c09S0 2],                    -- … parked after `Clients.Add`: it has inherited the session
+   [.connectHold 5 c09S 2],
+   [.dropHold 1],                               -- S's handler parked before its session clean-up
+   [.dropHoldEarly 1],                          -- … right after its read loop
+   [.dropHoldEarly 1, .connectHold 5 c09S 1],
+   [.dropHold 1, .connectHold 5 c09S0 2],
+   [.connectHold 5 c09S0 1, .connectHold 6 c09S 2]]
+
+def c09SchedOps : List Op :=
+  [.connectHold 6 c09S 1, .connectHold 6 c09S 2, .connectHold 6 c09S0 1, .connectHold 6 c09S0 2,
+   .connect 7 c09S, .connect 7 c09S0,
+   .drop 1, .drop 5, .drop 6, .dropHold 1, .dropHold 5, .dropHold 6, .dropHoldEarly 1, .dropHoldEarly 5, .dropHoldEarly 6,
+   .release 1, .release 5, .release 6,
+   .recv 1 (.pubrec 1 0), .recv 5 (.pubrec 1 0), .recv 5 .pingreq, .recv 5 (.disconnect 0 none),
+   .recv 5 (.disconnect 4 none), .recv 2 (.publish 1 false false 3 [116] [99] 0 none),
+   .recvCut 1 .pingreq, .recvCut 5 .pingreq, .tick "inflight" 1000001, .tick "clients" 1000001]
+
+set_option maxRecDepth 100000 in
+/-- no counterexample among these schedules, whether they respect `SchedOK` or not: an op that is not `Ends` keeps
+    the record -/
+theorem C09_sched_no_counterexample :
+    ∀ pre ∈ c09SchedPrefixes, ∀ op ∈ c09SchedOps,
+      OpFresh (run (init {}) (c09History.take 4 ++ pre)) op →
+      Holds (run (init {}) (c09History.take 4 ++ pre)) [115] 1 [97] →
+      Ends (run (init {}) (c09History.take 4 ++ pre)) [115] 1 op ∨
+      Holds (step (run (init {}) (c09History.take 4 ++ pre)) op).1 [115] 1 [97] := by decide
+
+set_option maxRecDepth 100000 in
+/-- the notable schedule (it violates `SchedOK`: a parked handler does not read): a second CONNECT for S's client id,
+    without a session expiry interval, is parked in the authentication hook — nothing is registered for it — and its
+    connection is dropped: its clean-up removes the registration of S's session (object 1, which still has the
+    record), so `Holds` is lost; `Ends` counts this `drop` (`EndsDrop` looks at the client id of the object of the
+    connection), so this is not a counterexample to the survival statement -/
+theorem C09_sched_parked_drop_unregisters :
+    Holds (run (init {}) (c09History.take 4 ++ [.connectHold 5 c09S0 1])) [115] 1 [97] ∧
+    ¬ SchedOK (run (init {}) (c09History.take 4 ++ [.connectHold 5 c09S0 1])) (.drop 5) ∧
+    Ends (run (init {}) (c09History.take 4 ++ [.connectHold 5 c09S0 1])) [115] 1 (.drop 5) ∧
+    ¬ Holds (step (run (init {}) (c09History.take 4 ++ [.connectHold 5 c09S0 1])) (.drop 5)).1 [115] 1 [97] ∧
+    assocGet (step (run (init {}) (c09History.take 4 ++ [.connectHold 5 c09S0 1])) (.drop 5)).1.clients [115] = none ∧
+    Rec (getObj (step (run (init {}) (c09History.take 4 ++ [.connectHold 5 c09S0 1])) (.drop 5)).1 1) 1 [97] := by
+  decide
+
+set_option maxRecDepth 100000 in
+/-- the same CONNECT released instead (this respects `SchedOK`): it takes the session over, the record moves to its
+    object (3) and is resent with DUP; not `Ends`, and `Holds` is kept -/
+theorem C09_sched_parked_release_keeps :
+    OpsSchedOK (init {}) (c09History.take 4 ++ [.connectHold 5 c09S0 1, .release 5]) ∧
+    ¬ Ends (run (init {}) (c09History.take 4 ++ [.connectHold 5 c09S0 1])) [115] 1 (.release 5) ∧
+    Holds (step (run (init {}) (c09History.take 4 ++ [.connectHold 5 c09S0 1])) (.release 5)).1 [115] 1 [97] ∧
+    (step (run (init {}) (c09History.take 4 ++ [.connectHold 5 c09S0 1])) (.release 5)).2.any (fun o =>
+      match o with
+      | .wrote 5 (.publish 5 m _) => m.dup && m.id == 1 && m.payload == [97]
+      | _ => false) = true := by decide
+
+set_option maxRecDepth 100000 in
+/-- non-vacuity of `C09_sched_no_counterexample`: S holds the record after each of the schedules -/
+theorem C09_sched_prefixes_hold :
+    ∀ pre ∈ c09SchedPrefixes, OpsFresh (init {}) (c09History.take 4 ++ pre) ∧
+      Holds (run (init {}) (c09History.take 4 ++ pre)) [115] 1 [97] := by decide
 
 end Mochi.Broker
